@@ -219,6 +219,14 @@ def _e15(P, R):
     return z3.Implies(E.f_y(P) == E.f_y(R), z3.Or(E.f_x(P) == E.f_x(R), E.f_x(P) == (E.Q - E.f_x(R)) % E.Q))
 
 
+@lemma("ed_enc_injective", 2, True,
+       "the RFC 8032 encoding value y + 2^255*(x mod 2) determines the curve point  [Lean: from enc_injective_core, Q odd]")
+def _e15b(P, R):
+    E = _ed()
+    v = lambda A: E.f_y(A) + (2 ** 255) * (E.f_x(A) % 2)
+    return z3.Implies(v(P) == v(R), P == R)
+
+
 @lemma("ed_decode_complete", 3, False,
        "M-xrecover (T2): decoding is complete - if b is the canonical encoding of a non-identity L-torsion point P then the "
        "x-recovery of RFC 8032 5.1.3 finds P: the decoded (x,y) is on the curve and is P  (sqrt for Q = 5 mod 8; Lean-provable, not done here; "
